@@ -310,10 +310,17 @@ Http::One::RequestParser::parseRequestFirstLine()
     if (!parseHttpVersionField(tok))
         return -1;
 
-    // An HTTP-version token (including an explicit HTTP/0.x) must be preceded
-    // by a delimiter. Only the RFC 1945 simple-request form has no version
-    // token and, hence, no delimiter.
+    // Only the RFC 1945 simple-request form (no version token at all) is
+    // HTTP/0.9. An explicit HTTP/0.x token (or the 0.0 that stands for an
+    // unsupported multi-digit version) is not valid request-line syntax,
+    // whether or not a delimiter precedes it.
     const bool foundVersionToken = tok.remaining().length() != beforeVersion;
+    if (foundVersionToken && http0()) {
+        debugs(33, ErrorLevel(), "ERROR: invalid request-line: unsupported HTTP version token");
+        parseStatusCode = Http::scBadRequest;
+        return -1;
+    }
+
     if (foundVersionToken && !skipDelimiter(tok.skipAllTrailing(DelimiterCharacters()), "before protocol version"))
         return -1;
 
